@@ -210,33 +210,122 @@ theorem asyncSend_inv (m : Machine) (u : UEnv) (e : Ev) (hwf : WF m.root) (hi : 
   · exact hl
 
 -- SYNC -------------------------------------------------------------------------------------------------
-theorem drainLoop_inv (m : Machine) (u : UEnv) (hwf : WF m.root) (hi : InitOK m.root)
-    (hsel : SelSound m) : ∀ (budget : Nat) (s : St), Legal m.root s.cfg →
-      Legal m.root (drainLoop m u budget s).cfg := by
-  intro budget
-  induction budget with
-  | zero => intro s hl; simp only [drainLoop]; split <;> exact hl
-  | succ n ih =>
-    intro s hl
+/-- one macrostep of the sync drain, as `drainLoop` spells it: `on_event_received`, `_process_event`, the
+    eventless settling (`syncMacro` of `Xsm/Model/Lifecycle.lean` is this expression) -/
+def drainMacro (m : Machine) (u : UEnv) (e : Ev) (s : St) : St :=
+  transientLoop (hooksFlagged u m) .sync m u m.maxIterations
+    (processEvent (hooksFlagged u m) .sync m u e (emit ("#recv:" ++ e.type) s))
+
+theorem drainLoop_zero (m : Machine) (u : UEnv) (c : Nat) (s : St) :
+    drainLoop m u 0 c s = if s.queue.isEmpty then s else { s with queue := [] } := by
+  simp only [drainLoop]
+
+theorem drainLoop_nil (m : Machine) (u : UEnv) (fuel c : Nat) (s : St) (hq : s.queue = []) :
+    drainLoop m u (fuel + 1) c s = s := by
+  cases s with
+  | mk cfg hist queue status trace err ctx rd errors =>
+    simp only at hq
+    subst hq
     simp only [drainLoop]
+
+theorem drainLoop_not_running (m : Machine) (u : UEnv) (fuel c : Nat) {s : St} (h : s.status ≠ "running") :
+    drainLoop m u (fuel + 1) c s = if s.queue = [] then s else { s with queue := [] } := by
+  simp only [drainLoop]
+  split
+  · rename_i hq; simp [hq]
+  · rename_i q rest hq
+    simp [h, hq]
+
+/-- the cut: the head is marked and is the `maxIterations + 1`-st marked event dequeued since the counter
+    was last at 0 — the marked entries are purged, the counter is reset, the loop goes on -/
+theorem drainLoop_trip (m : Machine) (u : UEnv) (fuel c : Nat) (s : St) (q : QEv) (rest : List QEv)
+    (hq : s.queue = q :: rest) (hrun : s.status = "running") (ht : syncTrips m c q = true) :
+    drainLoop m u (fuel + 1) c s = drainLoop m u fuel 0 (syncPurge s) := by
+  cases s with
+  | mk cfg hist queue status trace err ctx rd errors =>
+    simp only at hq hrun
+    subst hq; subst hrun
+    simp only [drainLoop, ne_eq, not_true_eq_false, if_false, ht, if_true]
+
+/-- otherwise the head is dequeued and processed -/
+theorem drainLoop_step (m : Machine) (u : UEnv) (fuel c : Nat) (s : St) (q : QEv) (rest : List QEv)
+    (hq : s.queue = q :: rest) (hrun : s.status = "running") (ht : syncTrips m c q = false) :
+    drainLoop m u (fuel + 1) c s =
+      if (drainMacro m u q.ev { s with queue := rest }).err.isSome = true then drainMacro m u q.ev { s with queue := rest }
+      else drainLoop m u fuel (chainedNext c q) (drainMacro m u q.ev { s with queue := rest }) := by
+  cases s with
+  | mk cfg hist queue status trace err ctx rd errors =>
+    simp only at hq hrun
+    subst hq; subst hrun
+    simp only [drainLoop, drainMacro, ne_eq, not_true_eq_false, if_false, ht, Bool.false_eq_true]
+    rfl
+
+/-- the five ways one iteration of the drain can go -/
+theorem drainLoop_cases (m : Machine) (u : UEnv) (P : Nat → Nat → St → Prop)
+    (h0 : ∀ c s, P 0 c s)
+    (hnil : ∀ fuel c s, s.queue = [] → P (fuel + 1) c s)
+    (hdead : ∀ fuel c s, s.status ≠ "running" → P (fuel + 1) c s)
+    (htrip : ∀ fuel c s q rest, s.queue = q :: rest → s.status = "running" → syncTrips m c q = true →
+      P fuel 0 (syncPurge s) → P (fuel + 1) c s)
+    (hstep : ∀ fuel c s q rest, s.queue = q :: rest → s.status = "running" → syncTrips m c q = false →
+      ((drainMacro m u q.ev { s with queue := rest }).err.isSome = false →
+        P fuel (chainedNext c q) (drainMacro m u q.ev { s with queue := rest })) → P (fuel + 1) c s) :
+    ∀ fuel c s, P fuel c s := by
+  intro fuel
+  induction fuel with
+  | zero => exact h0
+  | succ n ih =>
+    intro c s
+    cases hq : s.queue with
+    | nil => exact hnil n c s hq
+    | cons q rest =>
+      by_cases hrun : s.status = "running"
+      · cases ht : syncTrips m c q with
+        | true => exact htrip n c s q rest hq hrun ht (ih _ _)
+        | false => exact hstep n c s q rest hq hrun ht (fun _ => ih _ _)
+      · exact hdead n c s hrun
+
+/-- **invariants of the drain**: a property of the state that survives every change of the queue alone and
+    every macrostep survives the whole drain — whatever the fuel, the counter, cuts, errors -/
+theorem drainLoop_ind (m : Machine) (u : UEnv) (P : St → Prop)
+    (hqueue : ∀ s q, P s → P { s with queue := q })
+    (hmacro : ∀ s e, P s → P (drainMacro m u e s)) :
+    ∀ (fuel c : Nat) (s : St), P s → P (drainLoop m u fuel c s) := by
+  apply drainLoop_cases m u (fun fuel c s => P s → P (drainLoop m u fuel c s))
+  · intro c s hp; rw [drainLoop_zero]; split
+    · exact hp
+    · exact hqueue s [] hp
+  · intro fuel c s hq hp; rw [drainLoop_nil m u fuel c s hq]; exact hp
+  · intro fuel c s hr hp; rw [drainLoop_not_running m u fuel c hr]; split
+    · exact hp
+    · exact hqueue s [] hp
+  · intro fuel c s q rest hq hr ht ih hp
+    rw [drainLoop_trip m u fuel c s q rest hq hr ht]
+    exact ih (hqueue s _ hp)
+  · intro fuel c s q rest hq hr ht ih hp
+    rw [drainLoop_step m u fuel c s q rest hq hr ht]
+    have h2 := hmacro _ q.ev (hqueue s rest hp)
     split
-    · exact hl
-    · rename_i e _ rest _
-      split
-      · exact hl
-      · have hl' : Legal m.root (emit ("#recv:" ++ e.type) { s with queue := rest }).cfg := hl
-        have h1 := processEvent_inv (hooksFlagged u m) (hooksFlagged_ok u m) .sync m u e hwf hi hsel _ hl'
-        have h2 := transientLoop_inv (hooksFlagged u m) (hooksFlagged_ok u m) .sync m u hwf hi hsel
-          m.maxIterations _ h1
-        split
-        · exact h2
-        · exact ih _ h2
+    · exact h2
+    · rename_i he
+      exact ih (by simpa using he) h2
+
+theorem drainLoop_inv (m : Machine) (u : UEnv) (hwf : WF m.root) (hi : InitOK m.root)
+    (hsel : SelSound m) : ∀ (fuel c : Nat) (s : St), Legal m.root s.cfg →
+      Legal m.root (drainLoop m u fuel c s).cfg := by
+  apply drainLoop_ind m u (fun s => Legal m.root s.cfg)
+  · intro s q hl; exact hl
+  · intro s e hl
+    have hl' : Legal m.root (emit ("#recv:" ++ e.type) s).cfg := hl
+    have h1 := processEvent_inv (hooksFlagged u m) (hooksFlagged_ok u m) .sync m u e hwf hi hsel _ hl'
+    exact transientLoop_inv (hooksFlagged u m) (hooksFlagged_ok u m) .sync m u hwf hi hsel
+      m.maxIterations _ h1
 
 theorem syncSend_inv (m : Machine) (u : UEnv) (e : Ev) (hwf : WF m.root) (hi : InitOK m.root)
     (hsel : SelSound m) (s : St) (hl : Legal m.root s.cfg) : Legal m.root (syncSend m u e s).cfg := by
   unfold syncSend sndUnflagged drainFlagged
   split
-  · exact drainLoop_inv m u hwf hi hsel _ _ hl
+  · exact drainLoop_inv m u hwf hi hsel _ _ _ hl
   · exact hl
 
 -- start ----------------------------------------------------------------------------------------------
@@ -355,7 +444,7 @@ theorem syncStart_ok (m : Machine) (u : UEnv) (hwf : WF m.root) (hi : InitOK m.r
       cases hh : (transientLoop (hooksFlagged u m) Flavor.sync m u m.maxIterations s1).err with
       | none => simp [hh] at herr
       | some _ => simp [hh]
-    · right; exact drainLoop_inv m u hwf hi hsel _ _ ht
+    · right; exact drainLoop_inv m u hwf hi hsel _ _ _ ht
 
 /-- a later command starts with the error flag cleared (the exception went to the caller / the log) -/
 def cmd (fl : Flavor) (m : Machine) (u : UEnv) (s : St) (e : Ev) : St := send fl m u e { s with err := none }
